@@ -207,7 +207,7 @@ def run(ctx):
             seen.add((pid, profile))
             jobs.append((ids[pid], profile))
     confirmed = {}
-    for pool_, tmo in (([j for j in jobs if j[0]["class"] != "finding_reproducer"], 600),
+    for pool_, tmo in (([j for j in jobs if j[0]["class"] != "finding_reproducer"], 300 if ctx.quick else 600),
                        ([j for j in jobs if j[0]["class"] == "finding_reproducer"], 150)):
         for (a, profile), r in zip(pool_, cx.run_alone_many(ctx, pool_, procs=4, pkg_timeout=tmo)):
             confirmed[(a["id"], profile)] = (cx.classify(r["built"], r["crashed"]), cx.detail(r["built"], r["crashed"]))
@@ -327,7 +327,8 @@ def run(ctx):
         "the bulk of the pool is compiled by vh-crash: forc_pkg::BuildPlan + forc_pkg::compile per package with the std namespace "
         "reused inside one process; a slice goes through forc_pkg::build_with_options in fresh processes, and every crash is "
         "confirmed there before it counts",
-        "time-out = 120 s per package in the batch engine, 600 s alone; a compilation that exceeds it alone counts as non-terminating",
+        "time-out = 120 s per package in the batch engine, 600 s alone (300 s in the quick tier); a compilation that exceeds it "
+        "alone counts as non-terminating",
         "generated base packages: lib/swaygen seeds 0..%d with %d test cases each; single mutations are exhaustive over sites x kinds, "
         "double mutations are a fixed-seed TLC simulation pool" % (nb - 1, sm.NCASE),
         "corpus programs with dependencies other than std are not in the pool",
